@@ -95,7 +95,7 @@ DELIVERY_TIMEOUT = 20.0    # s; stop condition for waiting on the callback
 # the full time limit.  After three such waits in a process the limits are
 # lowered, so that a run against a badly broken tree still ends (the
 # violations are recorded already; on a healthy tree this is never used).
-_WAITED = {'io': 0, 'delivery': 0}
+_WAITED = {'io': 0, 'delivery': 0, 'stop': 0}
 
 
 def io_timeout():
@@ -307,8 +307,9 @@ class Fixture:
         # queue; do not let that block the harness
         t = threading.Thread(target=run, daemon=True)
         t.start()
-        t.join(15)
+        t.join(15 if _WAITED['stop'] < 2 else 1)
         if t.is_alive():
+            _WAITED['stop'] += 1
             return RuntimeError('stop() did not return within 15 s')
         return result[0] if result else None
 
